@@ -295,3 +295,49 @@ pub fn run_misc(ctx: &mut Ctx) {
     misc_s8u(ctx);
     misc_s16d(ctx);
 }
+
+/// `BumpVec::splice` pulled from BOTH ends and then dropped with a destructor of a still-unyielded element
+/// panicking (the only way `Drain::drop` of the private drain runs with a non-empty iterator): every range of at
+/// least two elements of small vectors, short front/back scripts, each unyielded element as the bomb.  Through the
+/// step machinery: replay on the model, exactly-once accounting, contents.
+pub fn run_splice_back(ctx: &mut Ctx) {
+    let pick = (seed() % 4) as u8;
+    for settings in [pick, pick ^ 1] {
+        for len in 2..=6usize {
+            for s in 0..len {
+                for e in s + 2..=len {
+                    for script in [&b"b"[..], b"fb", b"bb", b"bf", b"bbf"] {
+                        if script.len() >= e - s {
+                            continue;
+                        }
+                        let nf = script.iter().filter(|c| **c == b'f').count();
+                        let nb = script.len() - nf;
+                        // ids are 1..=len: the unyielded ones are s+nf+1 ..= e-nb
+                        for bomb in (s + nf + 1) as u64..=(e - nb) as u64 {
+                            for n in [0usize, 2] {
+                                ctx.next_id = 1;
+                                let ids: Vec<u64> = (0..len).map(|_| ctx.fresh()).collect();
+                                let src: Vec<u64> = (0..n).map(|_| ctx.fresh()).collect();
+                                ctx.count("splice-back:bomb among the unyielded elements after back pulls");
+                                let spec = Spec {
+                                    kind: Kind::Bump,
+                                    zst: false,
+                                    settings,
+                                    ids,
+                                    cap: len + 1,
+                                    script: Some(vec![Step { op: Op::Splice(s, e, src, script.to_vec(), 1_000_000, None), oracle: vec![], bombs: vec![bomb] }]),
+                                    nops: 0,
+                                    label: "splice-back",
+                                };
+                                ctx.trace_no += 1;
+                                run_spec(ctx, &spec);
+                                print!("{}", ctx.out);
+                                ctx.out.clear();
+                            }
+                        }
+                    }
+                }
+            }
+        }
+    }
+}
